@@ -59,6 +59,14 @@ def _evaluate(e, env, bits=64):
             if not isinstance(i, int) or i < 0 or i >= len(base):
                 raise Uneval("index out of range")
             return base[i]
+    if k == "field" and isinstance(e[1], tuple) and e[1] and e[1][0] == "agg" and isinstance(e[1][1], str) and "::" in e[1][1]:
+        # a field of a struct built in place: the operand in that field's position (operands are in declaration order)
+        prog_ = env.get("@prog")
+        sdef = prog_.adts.get(e[1][1].rsplit("::", 1)[0]) if prog_ is not None else None
+        if sdef is not None and sdef.get("kind") == "struct" and sdef.get("variants") and len(sdef["variants"][0]["fields"]) == len(e[1][2]):
+            names = [fn_ for fn_, _t in sdef["variants"][0]["fields"]]
+            if e[2] in names:
+                return evaluate(e[1][2][names.index(e[2])], env, bits)
     if k == "field":
         try:
             base = evaluate(e[1], env, bits)
@@ -187,18 +195,6 @@ def _evaluate(e, env, bits=64):
     if k == "agg" and e[1].startswith("closure:"):
         return ("$closure", e[1][len("closure:"):], tuple(evaluate(a, env, bits) for a in e[2]))
     if k == "agg" and "::" in e[1]:
-        prog_ = env.get("@prog")
-        sdef = prog_.adts.get(e[1].rsplit("::", 1)[0]) if prog_ is not None else None
-        if sdef is not None and sdef.get("kind") == "struct" and sdef.get("variants") and len(sdef["variants"][0]["fields"]) == len(e[2]) and len(e[2]) > 1:
-            # a struct built in place: its fields by name (operands are in declaration order); a field that cannot be evaluated
-            # is only an error for whoever reads that field
-            out = {}
-            for (fname, _fty), a in zip(sdef["variants"][0]["fields"], e[2]):
-                try:
-                    out[fname] = evaluate(a, env, bits)
-                except Uneval as u:
-                    out[fname] = _Unevaluated(str(u))
-            return out
         vn = VName(e[1].rsplit("::", 1)[-1])
         vn.path = e[1].rsplit("::", 1)[0]
         if len(e[2]) == 1:
